@@ -484,10 +484,10 @@ def lexLoop (tb : Int) : Nat → List Nat → Int → Bool → Option Out
     else if ch = 118 then consO (readVelocity tb cur)
     else if ch = 116 then consO (readTiming tb cur)
     else if isUpper ch ∨ ch = 95 then
-      -- `cur.prev()`: the raw text at the command character decides
-      if (startsWith wEnd1 (c :: cs) ∨ startsWith wEnd2 (c :: cs)) ∧ isWordChar (peek ((c :: cs).drop 3)) = false then some ⟨[], []⟩
+      -- `cur.prev(); cur.replace_char(ch)`: a full-width letter is read as its half-width form
+      if (startsWith wEnd1 (ch :: cs) ∨ startsWith wEnd2 (ch :: cs)) ∧ isWordChar (peek ((ch :: cs).drop 3)) = false then some ⟨[], []⟩
       else
-        let w := getWord (c :: cs)
+        let w := getWord (ch :: cs)
         if w.1 = wSub ∨ w.1 = [83] then
           let c1 := (Cur.mk w.2 ln).skipSpace
           let blk := getTokenNest 123 125 c1.s c1.line
@@ -498,10 +498,11 @@ def lexLoop (tb : Int) : Nat → List Nat → Int → Bool → Option Out
           | _, _ => none
         else none
     else if ch = 35 then
-      (match c :: cs with
-       | 35 :: 35 :: _ => let r := (getLine (c :: cs) ln).2; lexLoop tb f r.s r.line harm
-       | 35 :: 32 :: _ => let r := (getLine (c :: cs) ln).2; lexLoop tb f r.s r.line harm
-       | 35 :: 45 :: _ => let r := (getLine (c :: cs) ln).2; lexLoop tb f r.s r.line harm
+      -- (`cur.replace_char(ch)`: a full-width `＃` is read as `#`)
+      (match ch :: cs with
+       | 35 :: 35 :: _ => let r := (getLine (ch :: cs) ln).2; lexLoop tb f r.s r.line harm
+       | 35 :: 32 :: _ => let r := (getLine (ch :: cs) ln).2; lexLoop tb f r.s r.line harm
+       | 35 :: 45 :: _ => let r := (getLine (ch :: cs) ln).2; lexLoop tb f r.s r.line harm
        | _ => none)
     else if ch = 62 then one (tok .octaveRel 1 [])
     else if ch = 60 then one (tok .octaveRel (-1) [])
@@ -527,7 +528,8 @@ def lexLoop (tb : Int) : Nat → List Nat → Int → Bool → Option Out
     else if ch = 39 then
       if harm then cons (readHarmonyEnd cur) false else cons (tok .harmonyBegin 0 [], cur) true
     else if ch = 123 then
-      let blk := getTokenNest 123 125 (c :: cs) ln
+      -- `cur.prev(); cur.replace_char('{')`: a full-width brace is read as the half-width one
+      let blk := getTokenNest 123 125 (123 :: cs) ln
       let lens := blk.2.noteLength
       match lexLoop tb f blk.1 ln false, lexLoop tb f lens.2.s lens.2.line harm with
       | some inner, some o =>
